@@ -423,3 +423,56 @@ def _always_abrupt(stmts) -> bool:
 def raises_in(stmts):
     """Raise statements directly terminating a block (not nested in further conditionals)."""
     return [s for s in stmts if isinstance(s, ast.Raise)]
+
+
+# --------------------------------------------------------------------------- name-independent identification of a local
+
+def var_signature(fn: ast.AST, name: str) -> str:
+    """How a local is bound, reduced to the kind of each binding (callee of a call, loop range, operator kind) with every local name
+    masked: stable under renaming of locals, under re-lettered einsum strings and under unrelated edits.  Used to key exceptions
+    ("this variable is only read in the verbose report") by what the variable *is* instead of what it is called."""
+    import copy
+    from .model import norm
+    a = fn.args
+    params = {x.arg for x in a.posonlyargs + a.args + a.kwonlyargs}
+    locs = {n.id for n in ast.walk(fn) if isinstance(n, ast.Name) and isinstance(n.ctx, ast.Store)} - params
+
+    def mask(e):
+        class M(ast.NodeTransformer):
+            def visit_Name(s, n):
+                return ast.copy_location(ast.Name(id="_", ctx=n.ctx), n) if n.id in locs else n
+        return norm(M().visit(copy.deepcopy(e)))
+
+    def kind(v):
+        if isinstance(v, ast.Call):
+            return "call:" + mask(v.func)
+        if isinstance(v, ast.Constant):
+            return "const"
+        if isinstance(v, ast.BinOp):
+            return "binop"
+        if isinstance(v, ast.Attribute):
+            return "attr"
+        if isinstance(v, ast.Subscript):
+            return "item"
+        return type(v).__name__
+    sigs = set()
+    for n in ast.walk(fn):
+        if isinstance(n, ast.Assign):
+            for t in n.targets:
+                if isinstance(t, ast.Name) and t.id == name:
+                    sigs.add("=" + kind(n.value))
+                elif isinstance(t, (ast.Tuple, ast.List)):
+                    for i, el in enumerate(t.elts):
+                        if isinstance(el, ast.Name) and el.id == name:
+                            sigs.add(f"unpack[{i}/{len(t.elts)}]=" + kind(n.value))
+        elif isinstance(n, ast.AugAssign) and isinstance(n.target, ast.Name) and n.target.id == name:
+            sigs.add("aug" + type(n.op).__name__)
+        elif isinstance(n, ast.For):
+            for el in ast.walk(n.target):
+                if isinstance(el, ast.Name) and el.id == name:
+                    sigs.add("for:" + mask(n.iter)[:50])
+        elif isinstance(n, ast.comprehension):
+            for el in ast.walk(n.target):
+                if isinstance(el, ast.Name) and el.id == name:
+                    sigs.add("comp:" + mask(n.iter)[:50])
+    return " | ".join(sorted(sigs))
